@@ -11,11 +11,15 @@
   * `port_exact_or_rejected`: the URI port accumulator is exact up to 65535 and stays above it otherwise
     (so it is rejected by the `> 65535` test); `status_exact`: the reply status is the value of its 3 digits.
   * `q_*`: q values.
-  NOT yet proved: the run-level statement "verdict Ok ⇒ reported number = decimal value of the reported
-  field" for whole header values (needs the loop invariant linking the accumulator to `b[soffs..i)`); it is
-  checked by the oracle against math/big on the implementation.
+  * **run level** (`uint_value_exact`, `clen_value_exact`, `cseq_value_exact`, any buffer within the 65,535-byte
+    limit, any offset, new or suspended objects): when ParseUIntVal (= ParseExpiresVal) / ParseCLenVal /
+    ParseCSeqVal succeed, the reported field is a non-empty string of digits of the buffer and the reported number
+    is exactly its decimal value (`value_meaning` spells this out with the model's `Get`).
+  NOT yet proved at run level: the Contact expires / q parameters and the URI port as reported after a whole
+  name-addr / URI parse (their accumulators are proved exact above); checked by the oracle against math/big.
 -/
 import Sipsp.Proofs.Num
+import Sipsp.Proofs.NumRun
 import Sipsp.Model.Msg
 
 namespace Sipsp.C10
@@ -105,11 +109,38 @@ theorem status_exact (b : Buf) (i0 l : Nat) (pl : PFLine) (d0 d1 d2 : UInt8)
   simp only [decOf, decFrom_cons, decFrom_nil, dval_def]
   split at h <;> (cases h; simp only; omega)
 
+
+/-! ### run level: the number reported after a successful parse is the value of the reported digit string -/
+
+theorem uint_value_exact (b : Buf) (o : Nat) (st : PUIntBody) (hfit : b.size ≤ 65535) (ho : o ≤ b.size)
+    (h : ClNum b o st) {o' : Nat} {st' : PUIntBody} (hr : parseUIntVal b o st = (o', .ok, st')) :
+    NumDone b st'.sVal st'.uiVal := parseUIntVal_exact b o st hfit ho h hr
+
+theorem clen_value_exact (b : Buf) (o : Nat) (st : PUIntBody) (hfit : b.size ≤ 65535) (ho : o ≤ b.size)
+    (h : ClNum b o st) {o' : Nat} {st' : PUIntBody} (hr : parseCLenVal b o st = (o', .ok, st')) :
+    NumDone b st'.sVal st'.uiVal := parseCLenVal_exact b o st hfit ho h hr
+
+theorem cseq_value_exact (b : Buf) (o : Nat) (st : PCSeqBody) (hfit : b.size ≤ 65535) (ho : o ≤ b.size)
+    (h : CsNum b o st) (hni : st.state = .fin → NumDone b st.cseq st.cseqNo)
+    {o' : Nat} {st' : PCSeqBody} (hr : parseCSeqVal b o st = (o', .ok, st')) :
+    NumDone b st'.cseq st'.cseqNo := parseCSeqVal_exact b o st hfit ho h hni hr
+
+/-- new objects satisfy the hypotheses -/
+theorem new_objects_num (b : Buf) (o : Nat) : ClNum b o {} ∧ CsNum b o {} := ⟨ClNum_new b o, CsNum_new b o⟩
+
+/-- what `NumDone` says: `Get` on the field returns a non-empty all-digit slice whose decimal value is the number -/
+theorem value_meaning (b : Buf) (fld : PField) (v : Nat) (h : NumDone b fld v) (hfit : b.size ≤ 65535) :
+    ∃ d, fld.get? b = some d ∧ d.size ≥ 1 ∧ AllDigits d.toList ∧ v = decOf d.toList := h.get hfit
+
 /-! ### non-vacuity -/
 example : AllDigits [53, 48, 48] ∧ decOf [53, 48, 48] = 500 := by
   constructor
   · intro c hc; simp only [List.mem_cons, List.not_mem_nil, or_false] at hc
     rcases hc with h | h | h <;> (subst h; unfold IsDigitB; decide)
   · simp only [decOf, decFrom_cons, decFrom_nil, dval_def]; decide
+
+/-- test: a Content-Length value parsed from a new object -/
+example : (parseCLenVal "  4711\r\nX".toUTF8.data 0 {}).2.1 = Err.ok ∧ (parseCLenVal "  4711\r\nX".toUTF8.data 0 {}).2.2.uiVal = 4711 := by
+  decide +kernel
 
 end Sipsp.C10
